@@ -133,7 +133,7 @@ fn pick<'a>(rng: &mut Rng, xs: &'a [&'a str]) -> &'a str { *rng.pick(xs) }
 
 const YEARS: [&str; 12] = ["-", "2024", "2023", "1900", "2000", "0", "-1", "-271821", "275760", "-271822", "275761", "2147483647"];
 const MONTHS: [&str; 10] = ["-", "0", "1", "2", "4", "11", "12", "13", "14", "255"];
-const CODES: [&str; 10] = ["-", "M01", "M02", "M04", "M12", "M13", "M00", "M05L", "M11", "M99"];
+const CODES: [&str; 10] = ["-", "M01", "M02", "M04", "M12", "M13", "M00L", "M05L", "M11", "M99"];
 const DAYS: [&str; 11] = ["-", "0", "1", "15", "28", "29", "30", "31", "32", "255", "100"];
 const OVS: [&str; 3] = ["-", "constrain", "reject"];
 const H: [&str; 7] = ["-", "0", "12", "23", "24", "255", "5"];
